@@ -704,9 +704,10 @@ def decide(pid, tier, seed):
             else:
                 undecided.append(f"{n}: {tag} is {now}")
         # Kani's automatic checks (panics, overflow, bounds, pointer validity, invalid drops) in the code under
-        # contract: obligations of C20 everywhere, and of C19 at the unsafe sites (h_drop: a value dropped that
-        # was never produced, or read from memory that does not hold one, is a C19 matter as well)
-        if pid == "C20" or (pid == "C19" and cat[n]["module"] == "h_drop"):
+        # contract. A function that panics (or runs into undefined behaviour) where its contract promises a result
+        # does not meet that contract: such a failure is a violation of every property that has obligations on the
+        # function (C20 has them on every harness: totality).
+        if True:
             real = [c for c in auto_fail if "/verif/kani" not in c["loc"]]
             own = [c for c in auto_fail if "/verif/kani" in c["loc"]]
             if own:
@@ -758,14 +759,12 @@ def decide(pid, tier, seed):
                             msg = f["obligation"]
                             m = TAG_RE.match(msg)
                             if f.get("panic"):
-                                tag = "C20/native.panic"
-                                if pid != "C20":
-                                    continue
+                                tag = pid + "/native.panic"  # a panic in the code under contract: see the automatic checks above
                             elif m:
                                 tag = m.group(0)
                             else:
                                 continue
-                            if tag not in obligations_of(pid, n, e) and tag != "C20/native.panic":
+                            if tag not in obligations_of(pid, n, e) and not tag.endswith("/native.panic"):
                                 continue
                             if [k for k in kf if k["obligation"] == tag and (k.get("harness") in (None, n) or re.fullmatch(k.get("harness", ""), n))]:
                                 continue
